@@ -366,6 +366,36 @@ theorem C10_leaf_UniqueIdentifier_pack (u : S_UniqueIdentifier) (buf : List UInt
     | err x => rw [hm] at this; exact this.elim
     | hang => rw [hm] at this; exact this.elim
 
+/-! ### `Authenticator.pack` -/
+
+theorem copy_step (buf W src : List UInt8) (p : Nat) (hL : buf.length < 4611686018427387904)
+    (h : p + W.length ≤ buf.length) :
+    Go.copyAt? (splice buf p W) (Int64.ofNat (p + W.length)) src =
+      some (splice buf p (W ++ src.take (buf.length - (p + W.length))),
+        Int64.ofNat (src.take (buf.length - (p + W.length))).length) := by
+  have hs := splice_length buf W p h
+  rw [copyAt_spec _ src (p + W.length) (by rw [hs]; exact hL) (by rw [hs]; exact h), hs, splice_splice buf W _ p h]
+
+theorem put_step (buf W : List UInt8) (v : UInt16) (p : Nat) (hL : buf.length < 4611686018427387904)
+    (h : p + W.length ≤ buf.length) :
+    Go.putU16? (splice buf p W) (Int64.ofNat (p + W.length)) v =
+      if p + W.length + 2 ≤ buf.length then some (splice buf p (W ++ [(v >>> 8).toUInt8, v.toUInt8])) else none := by
+  have hs := splice_length buf W p h
+  rw [putU16_spec _ (p + W.length) v (by rw [hs]; exact hL) (by rw [hs]; exact h), hs]
+  by_cases h2 : p + W.length + 2 ≤ buf.length
+  · rw [if_pos h2, if_pos h2, splice_splice buf W _ p h]
+  · rw [if_neg h2, if_neg h2]
+
+abbrev Obj := String × List UInt8 × Int64
+abbrev NewErr := String → List UInt8 → Int64 → Bool
+abbrev SealF := Obj → List UInt8 → List UInt8 → List UInt8 → List UInt8 → Option (List UInt8)
+
+/-- the functions standing for the library agree with the model's AEAD on sealing -/
+structure AgreeSeal (ne : NewErr) (sl : SealF) (A : AEAD) : Prop where
+  newErr : ∀ key, ne "AES-CMAC-SIV" key 16 = !keyOk (bytesN key)
+  seals : ∀ key n pt ad, n.length = 16 → ∃ ct, sl ("AES-CMAC-SIV", key, 16) [] n pt ad = some ct ∧
+    bytesN ct = A.sealF (bytesN key) (bytesN n) (bytesN pt) (some (bytesN ad)) ∧ ct.length < 4611686018427387904
+
 /-- non-vacuity: a 5-byte cookie at position 2 of a 20-byte buffer — header, value, three padding
     bytes; and the truncation at the end of a 12-byte buffer -/
 example : nts_Cookie_pack { extHdr := { Type' := 0, Length := 0 }, Cookie := [1, 2, 3, 4, 5] } (List.replicate 20 9) 2 =
